@@ -386,7 +386,16 @@ def user_call(name, pre=None, post=None, on_raise=None, result_ty='any', raises=
     return model
 
 
+def str_pred(name):
+    def f(ex, n, awaited, recv):
+        p = z3.Function('str_' + name, Ref, z3.BoolSort())
+        return mk_bool(p(recv.term))
+    return f
+
+
 def install(spec: Spec):
+    for nm in ('isidentifier', 'isdigit', 'startswith', 'endswith'):
+        spec.methods[('str', nm)] = str_pred(nm)
     b = spec.builtins
     b.update({
         'len': b_len, 'max': _minmax(True), 'min': _minmax(False), 'isinstance': b_isinstance, 'issubclass': b_issubclass,
